@@ -593,6 +593,7 @@ def run(m, tier):
     results.append(r14_isinstance_overrides(m))
     from rules import two_roundtrip
     results.append(two_roundtrip.standards_rule(m, "C17.R15", floor=230))
+    results.append(r16_list_elements(m))
     expl = ("Decides grammar inclusion at the level at which the 2008 grammar is assembled: every rule and alternative of the linked "
             "2003 registry is still reachable, in the same relative order, in the linked 2008 registry (550 rules); identity tests of "
             "the generic engine also name the 2008 overrides; 2003 code that builds an overridden class by Python name is covered by a "
@@ -740,4 +741,30 @@ def r14_isinstance_overrides(m):
                     r.fail("%s|isinstance|%s" % (q, e.id), "%s tests `%s`, but under the 2008 grammar objects of that rule are instances of %s, "
                            "which does not derive from the 2003 class: the test is true under f2003 and false under f2008, so the two parsers "
                            "treat the same source differently" % (q, A.text(c)[:60], k8), m.loc(f, c))
+    return r
+
+
+def r16_list_elements(m):
+    """A generated <X>_List class calls its element class X by Python reference.  Where the 2008 grammar keeps the 2003 list class but
+    overrides X with its own matcher, the override is found only through X's alternatives (Base.subclasses[X]): it must register itself."""
+    r = RuleResult("C17.R16", "where the 2008 grammar overrides an element class X with its own matcher but keeps the 2003 class X_List, the "
+                              "override is registered among the alternatives of X (subclass_names of the 2008 class contains X): otherwise the "
+                              "2008 form of X is not tried inside lists")
+    r.floor = 3
+    s3, s8 = m.snap["std_classes"]["f2003"], m.snap["std_classes"]["f2008"]
+    for n in sorted(s3):
+        if not (n in s8 and s3[n] != s8[n]) or m.classes[s8[n]]["generated"] or "match" not in m.classes[s8[n]]["own"]:
+            continue
+        ln = n + "_List"
+        if ln not in s3:
+            continue
+        r.instances += 1
+        same_list = s8.get(ln) == s3.get(ln)
+        registered = n in (m.classes[s8[n]]["subclass_names"] or []) and s8[n] in (m.snap["registry"]["f2008"].get(n) or [])
+        ok = (not same_list) or registered
+        r.ob(ok, "%s: %s" % (n, "2008 has its own %s" % ln if not same_list else "the 2008 class is an alternative of the 2003 %s" % n))
+        if not ok:
+            r.fail("%s|list-element" % n, "the 2008 grammar uses the 2003 class %s, which builds its elements with the 2003 class %s; the 2008 "
+                   "override %s is not among the alternatives of %s (it does not list %r in subclass_names), so inside a list only the 2003 "
+                   "form is tried and a valid Fortran 2008 list is rejected" % (ln, n, s8[n], n, n), m.class_loc(s8[n]))
     return r
